@@ -1,19 +1,19 @@
-(* C12/ConnKeep.v — the id width and the backend kind of a connection never change. *)
+(* C12/ConnKeep.v — the id width of a connection never changes (the backend may: mpt_connection_assign / _open). *)
 From MptV Require Import Base.Mem C12.ReplyModel C12.ReplySpec C12.ConnModel.
 Local Open Scope nat_scope.
 
-Definition ckeep (c c' : conn) : Prop := cidl c' = cidl c /\ cdg c' = cdg c.
+Definition ckeep (c c' : conn) : Prop := cidl c' = cidl c.
 
 Lemma ckeep_refl c : ckeep c c.
-Proof. split; reflexivity. Qed.
+Proof. reflexivity. Qed.
 Lemma ckeep_trans a b c : ckeep a b -> ckeep b c -> ckeep a c.
-Proof. intros [A1 A2] [B1 B2]. split; congruence. Qed.
+Proof. unfold ckeep. congruence. Qed.
 
-Lemma keep_set_tab c t : ckeep c (set_tab c t). Proof. split; reflexivity. Qed.
-Lemma keep_set_in c a b d : ckeep c (set_in c a b d). Proof. split; reflexivity. Qed.
-Lemma keep_set_out c a b d : ckeep c (set_out c a b d). Proof. split; reflexivity. Qed.
-Lemma keep_set_ntag c n : ckeep c (set_ntag c n). Proof. split; reflexivity. Qed.
-Lemma keep_set_req c n id : ckeep c (set_req c n id). Proof. split; reflexivity. Qed.
+Lemma keep_set_tab c t : ckeep c (set_tab c t). Proof. reflexivity. Qed.
+Lemma keep_set_in c a b d : ckeep c (set_in c a b d). Proof. reflexivity. Qed.
+Lemma keep_set_out c a b d : ckeep c (set_out c a b d). Proof. reflexivity. Qed.
+Lemma keep_set_ntag c n : ckeep c (set_ntag c n). Proof. reflexivity. Qed.
+Lemma keep_set_req c n id : ckeep c (set_req c n id). Proof. reflexivity. Qed.
 
 Lemma keep_answer c m e1 e2 : ckeep c (fst (fst (dispatch_answer c m e1 e2))).
 Proof.
@@ -21,28 +21,31 @@ Proof.
   destruct (tfind _ v) as [[k tg]|]; [apply keep_set_tab|apply ckeep_refl].
 Qed.
 
-Lemma keep_await c : ckeep c (fst (do_await c)).
+Lemma keep_await c tag : ckeep c (fst (do_await c tag)).
 Proof.
-  unfold do_await. destruct (_ || _); [apply ckeep_refl|].
-  destruct (reserve _ _ _ _) as [[[tab k] id]|]; [split; reflexivity|apply ckeep_refl].
+  unfold do_await. destruct (cgone c); [apply ckeep_refl|]. destruct (_ || _); [apply ckeep_refl|].
+  destruct (reserve _ _ _ _) as [[[tab k] id]|]; [reflexivity|apply ckeep_refl].
 Qed.
 
 Lemma keep_push c pay : ckeep c (fst (fst (do_push c pay))).
 Proof.
-  unfold do_push. destruct (push_blocked c); [apply ckeep_refl|]. destruct (_ && _); [|apply keep_set_out].
+  unfold do_push. destruct (cgone c); [apply ckeep_refl|]. destruct (push_blocked c); [apply ckeep_refl|]. destruct (_ && _); [|apply keep_set_out].
   destruct (id2buf _ _) as [[bs u]| |]; [apply keep_set_out|apply ckeep_refl|apply ckeep_refl].
 Qed.
 
 Lemma keep_finish c : ckeep c (fst (fst (fst (do_finish c)))).
 Proof.
-  unfold do_finish. destruct (push_blocked c); [apply ckeep_refl|]. destruct (_ && _); [|split; reflexivity].
-  destruct (id2buf _ _) as [[bs u]| |]; split; reflexivity.
+  unfold do_finish. destruct (cgone c); [apply ckeep_refl|]. destruct (push_blocked c); [apply ckeep_refl|]. destruct (_ && _); [|reflexivity].
+  destruct (id2buf _ _) as [[bs u]| |]; reflexivity.
 Qed.
+
+Lemma keep_sync_end c count wc : ckeep c (fst (fst (sync_end c count wc))).
+Proof. unfold sync_end. destruct (_ <? _); [apply ckeep_refl|apply keep_set_tab]. Qed.
 
 Lemma keep_sync_loop fuel : forall c count wc, ckeep c (fst (fst (sync_loop fuel c count wc))).
 Proof.
   induction fuel as [|fuel IH]; intros c count wc; [apply ckeep_refl|]. cbn [sync_loop].
-  destruct (count =? 0); [apply keep_set_tab|].
+  destruct (count =? 0); [apply keep_sync_end|].
   set (oc := if ccur c then Some c else if is_nil (csock c) then None else Some (set_in c [] (cload c ++ csock c) true)).
   assert (Hoc : match oc with Some c1 => ckeep c c1 | None => True end).
   { unfold oc. destruct (ccur c); [apply ckeep_refl|]. destruct (is_nil _); [exact I|apply keep_set_in]. }
@@ -51,10 +54,12 @@ Proof.
   destruct (_ || _); [exact Hoc|].
   destruct (buf2id _) as [[v u]| |]; try exact Hoc.
   destruct (tfind (ctab c1) v) as [[k tg]|].
-  - eapply ckeep_trans; [|apply IH]. eapply ckeep_trans; [exact Hoc|].
-    eapply ckeep_trans; [apply keep_set_in|apply keep_set_tab].
-  - destruct (tfind (ctab c1) 0%N) as [[k tg]|];
-      (eapply ckeep_trans; [|apply IH]; eapply ckeep_trans; [exact Hoc|apply keep_set_in]).
+  - cbv zeta. destruct (_ <? _)%Z; (eapply ckeep_trans; [|first [apply keep_sync_end|apply IH]]);
+      (eapply ckeep_trans; [exact Hoc|]; eapply ckeep_trans; [apply keep_set_in|apply keep_set_tab]).
+  - destruct (tfind (ctab c1) 0%N) as [[k tg]|].
+    + cbv zeta. destruct (_ <? _)%Z; (eapply ckeep_trans; [|first [apply keep_sync_end|apply IH]]);
+        (eapply ckeep_trans; [exact Hoc|apply keep_set_in]).
+    + eapply ckeep_trans; [|apply IH]. eapply ckeep_trans; [exact Hoc|apply keep_set_in].
 Qed.
 
 Lemma keep_dsync_loop fuel : forall c wc, ckeep c (fst (fst (dsync_loop fuel c wc))).
@@ -72,14 +77,16 @@ Proof.
     destruct (negb _); [exact Hoc|].
     destruct (buf2id _) as [[v u]| |]; try (eapply ckeep_trans; [exact Hoc|apply keep_set_in]).
     destruct (tfind _ v) as [[k tg]|]; [|eapply ckeep_trans; [exact Hoc|apply keep_set_in]].
-    eapply ckeep_trans; [|apply IH]. eapply ckeep_trans; [exact Hoc|].
-    eapply ckeep_trans; [apply keep_set_in|apply keep_set_tab].
+    cbv zeta. destruct (_ <? _)%Z.
+    + cbn [fst]. eapply ckeep_trans; [exact Hoc|]. eapply ckeep_trans; [apply keep_set_in|apply keep_set_tab].
+    + eapply ckeep_trans; [|apply IH]. eapply ckeep_trans; [exact Hoc|].
+      eapply ckeep_trans; [apply keep_set_in|apply keep_set_tab].
   - cbn [fst]. destruct (cact c); [apply ckeep_refl|apply keep_set_in].
 Qed.
 
 Lemma keep_sync c : ckeep c (fst (fst (do_sync c))).
 Proof.
-  unfold do_sync. destruct (cidl c =? 0); [apply ckeep_refl|].
+  unfold do_sync. destruct (cidl c =? 0); [apply ckeep_refl|]. destruct (cgone c); [apply ckeep_refl|].
   destruct (cdg c); [apply keep_dsync_loop|].
   destruct (is_nil _); [apply ckeep_refl|apply keep_sync_loop].
 Qed.
@@ -92,7 +99,21 @@ Proof.
 Qed.
 
 Lemma keep_close c : ckeep c (fst (close_conn c)).
-Proof. split; reflexivity. Qed.
+Proof. reflexivity. Qed.
+
+Lemma keep_apf c tag bump pay : ckeep c (fst (await_push_finish c tag bump pay)).
+Proof.
+  unfold await_push_finish.
+  pose proof (keep_await c tag) as H1. destruct (do_await c tag) as [c1 ra]. cbn [fst] in H1.
+  set (c1' := if bump then set_ntag c1 (S (cntag c1)) else c1).
+  assert (H2 : ckeep c c1') by (unfold c1'; destruct bump; [eapply ckeep_trans; [exact H1|apply keep_set_ntag]|exact H1]).
+  destruct (is_nil pay).
+  - pose proof (keep_finish c1') as H3. destruct (do_finish c1') as [[[c3 p2] ws] f]. cbn [fst snd] in *.
+    eapply ckeep_trans; eauto.
+  - pose proof (keep_push c1' pay) as H3. destruct (do_push c1' pay) as [[c2 p1] f1]. cbn [fst] in H3.
+    pose proof (keep_finish c2) as H4. destruct (do_finish c2) as [[[c3 p2] ws] f]. cbn [fst snd] in *.
+    eapply ckeep_trans; [exact H2|]. eapply ckeep_trans; eauto.
+Qed.
 
 Section Keep.
   Variable RW : Type.
@@ -138,7 +159,7 @@ Section Keep.
   Lemma keep_dispatch r c h :
     let '(_, c', _) := do_dispatch RW rstep rarmed rserial r c h in ckeep c c'.
   Proof.
-    unfold do_dispatch. destruct (cdg c).
+    unfold do_dispatch. destruct (cgone c); [apply ckeep_refl|]. destruct (cdg c).
     - pose proof (keep_dg_next c) as H1. destruct (dg_next c) as [c1 nx]. cbn [fst] in H1.
       destruct (cact c1); [exact H1|]. destruct (ccur c1); [|exact H1].
       destruct (cload c1) as [|m rest]; [exact H1|].
@@ -156,7 +177,7 @@ Section Keep.
 
   Lemma keep_cstep r c o : ckeep c (snd (fst (cstep RW rstep rarmed rserial (r, c) o))).
   Proof.
-    unfold cstep. destruct o as [m|acts code| |k p|pay|pay| | | ].
+    unfold cstep. destruct o as [m|acts code| |k p|pay|pay| | | |pay| | | |msg|rk rh|t|color].
     - apply keep_set_in.
     - destruct (cclosed c); [apply ckeep_refl|].
       pose proof (keep_dispatch r c (Some (acts, code))) as H.
@@ -166,17 +187,9 @@ Section Keep.
       destruct (do_dispatch _ _ _ _ _ _ _) as [[r1 c1] res]. exact H.
     - destruct (prim _ _ _ _ _ _). apply ckeep_refl.
     - destruct (cclosed c); [apply ckeep_refl|].
-      pose proof (keep_await c) as H1. destruct (do_await c) as [c1 ra]. cbn [fst] in H1.
-      set (c1' := set_ntag c1 (S (cntag c1))).
-      assert (H2 : ckeep c c1') by (eapply ckeep_trans; [exact H1|apply keep_set_ntag]).
-      destruct (is_nil pay).
-      + pose proof (keep_finish c1') as H3. destruct (do_finish c1') as [[[c3 p2] ws] f]. cbn [fst snd] in *.
-        eapply ckeep_trans; eauto.
-      + pose proof (keep_push c1' pay) as H3. destruct (do_push c1' pay) as [[c2 p1] f1]. cbn [fst] in H3.
-        pose proof (keep_finish c2) as H4. destruct (do_finish c2) as [[[c3 p2] ws] f]. cbn [fst snd] in *.
-        eapply ckeep_trans; [exact H2|]. eapply ckeep_trans; eauto.
+      pose proof (keep_apf c (S (cntag c)) true pay) as H. destruct (await_push_finish _ _ _ _) as [c3 res]. exact H.
     - destruct (cclosed c); [apply ckeep_refl|].
-      pose proof (keep_await c) as H1. destruct (do_await c) as [c1 ra]. cbn [fst] in H1.
+      pose proof (keep_await c (S (cntag c))) as H1. destruct (do_await c _) as [c1 ra]. cbn [fst] in H1.
       pose proof (keep_push (set_ntag c1 (S (cntag c1))) pay) as H3.
       destruct (do_push _ pay) as [[c2 p1] f1]. cbn [fst snd] in *.
       eapply ckeep_trans; [exact H1|]. eapply ckeep_trans; [apply keep_set_ntag|exact H3].
@@ -185,8 +198,25 @@ Section Keep.
     - destruct (cclosed c); [apply ckeep_refl|].
       pose proof (keep_sync c) as H. destruct (do_sync c) as [[c1 z] wc]. exact H.
     - destruct (cclosed c); [apply ckeep_refl|].
+      destruct (0 <? crefs c); [reflexivity|].
       pose proof (keep_close c) as H. destruct (close_conn c) as [c0 wc]. cbn [fst] in H.
       destruct (chas c); [|exact H]. destruct (prim _ _ _ _ _ _). exact H.
+    - destruct (cclosed c); [apply ckeep_refl|].
+      pose proof (keep_apf c 0 false pay) as H. destruct (await_push_finish _ _ _ _) as [c3 res]. exact H.
+    - destruct (cclosed c); reflexivity.
+    - destruct (cclosed c); reflexivity.
+    - destruct (cclosed c); [reflexivity|]. cbn [fst snd]. destruct (_ && _); reflexivity.
+    - destruct (cclosed c); [apply ckeep_refl|].
+      pose proof (keep_push c msg) as H1. destruct (do_push c msg) as [[c1 p1] f1]. cbn [fst] in H1.
+      destruct (p1 <? 0)%Z; [exact H1|].
+      pose proof (keep_finish c1) as H2. destruct (do_finish c1) as [[[c2 p2] ws] f]. cbn [fst snd] in *.
+      eapply ckeep_trans; eauto.
+    - destruct (cclosed c); [apply ckeep_refl|].
+      destruct (cact c && negb (is_assign_null rk rh)); [apply ckeep_refl|].
+      destruct (is_reopen c rk rh); [destruct rh; reflexivity|].
+      destruct (chas c); [destruct (prim _ _ _ _ _ _)|]; reflexivity.
+    - destruct (cclosed c); reflexivity.
+    - destruct (cclosed c); reflexivity.
   Qed.
 
   Lemma keep_cexec ops : forall r c, ckeep c (snd (cexec RW rstep rarmed rserial (r, c) ops)).
